@@ -130,7 +130,20 @@ fn run_seq(case: &Value) -> Value {
         match r {
             Ok(v) => outs.push(v),
             Err(m) => {
-                outs.push(json!({"panic": m}));
+                // A refused call must leave nothing behind: for a refused plain `Enc` on the raw dictionary
+                // (no lock to poison) the same call is issued once more and its outcome recorded - it has to
+                // be refused again; an identifier handed out now comes from state the failed call left.
+                let is_raw_enc = db.is_none() && op.as_array().map_or(false, |a| a[0].as_str() == Some("Enc"));
+                if is_raw_enc && m.contains("exhausted") {
+                    let again = vharness::catch(std::panic::AssertUnwindSafe(|| seq_op(op, None, &mut d, &mut q)));
+                    let retry = match again {
+                        Ok(v) => v,
+                        Err(m2) => json!({"panic": m2}),
+                    };
+                    outs.push(json!({"panic": m, "retry": retry}));
+                } else {
+                    outs.push(json!({"panic": m}));
+                }
                 panicked = true;
                 break;
             }
